@@ -16,7 +16,7 @@ MANIFEST = dict(
     design_ref="DESIGN.md section 6, C05",
     note="Trusted: Coq kernel + vm_compute; hand transcriptions CmsLinear.v / CmsLog.v (validated by correspondence); for log "
          "sketches the pow/decode tables are inputs read from the implementation (DESIGN 3.4) and draws are an explicit stream. "
-         "Theorems closed under the global context.",
+         "Theorems closed under the global context. Log theorems mention binary64 tables, so Print Assumptions lists the kernel's primitive float operations (not logical axioms).",
     technique="Coq proof (one-step characterisation lemma of conservative update, any state) + vm_compute correspondence")
 
 
